@@ -145,6 +145,40 @@ pub fn run(tier: Tier) -> Run {
         run.machinery("enum type list differs from golden");
     }
 
+    // ---- state behind a pure-looking function: (a) the very first conversions this process makes, per type, of numbers
+    //      a sentinel could collide with; (b) a number accepted by one enumeration asked of EVERY other enumeration
+    //      directly afterwards (single-threaded on purpose: nothing else runs yet)
+    {
+        for e in &enum_ops {
+            let declared: Vec<u32> = g.enums[e.name].declared().into_iter().collect();
+            for x in [0x7FFF_FFFFu32, 0xFFFF_FFFF, 0x8000_0000, 0] {
+                let (_, bad) = (e.sweep)(x as u64, x as u64, &declared);
+                for (n, why) in bad {
+                    run.add(viol(format!("C08:{}:from_u32:{}:first-use", e.name, n), format!("{}::from_u32({}) as the first conversion of the process {}", e.name, n, why), json!({"kind": "c08-number", "type": e.name, "number": n, "first_use": true})));
+                }
+            }
+        }
+        let decl: Vec<Vec<u32>> = enum_ops.iter().map(|e| g.enums[e.name].declared().into_iter().collect()).collect();
+        let mut cross = 0u64;
+        for (xi, x) in enum_ops.iter().enumerate() {
+            // up to 40 declared values of X, spread over its range
+            let step = (decl[xi].len() / 40).max(1);
+            for &n in decl[xi].iter().step_by(step) {
+                for (yi, y) in enum_ops.iter().enumerate() {
+                    if xi == yi {
+                        continue;
+                    }
+                    let _ = (x.sweep)(n as u64, n as u64, &decl[xi]);
+                    let (_, bad) = (y.sweep)(n as u64, n as u64, &decl[yi]);
+                    cross += 1;
+                    for (m, why) in bad {
+                        run.add(viol(format!("C08:{}:from_u32:{}:after-{}", y.name, m, x.name), format!("{}::from_u32({}) directly after {}::from_u32({}) {}", y.name, m, x.name, n, why), json!({"kind": "c08-cross", "first": x.name, "second": y.name, "number": m})));
+                    }
+                }
+            }
+        }
+        run.outcome("cross_type_conversion_pairs", cross);
+    }
     // ---- number sweeps -------------------------------------------------------------------
     enum Task<'a> {
         E(&'a EnumOps, Vec<u32>, u64, u64),
